@@ -41,6 +41,16 @@ def faults(rnd, text, quick):
     for i in ends:
         out.append(("del-end", j(toks[:i] + toks[i + 1:])))
         out.append(("rename-end", j(toks[:i] + ["</ZZ9>"] + toks[i + 1:])))
+        nm = toks[i][2:-1]
+        near = {"suffix": nm[1:], "last-char": nm[-1:], "prefix": nm[:-1], "extended-left": "X" + nm, "extended-right": nm + "X",
+                "case": nm.swapcase()}
+        prev = [toks[k][1:-1] for k in starts if k < i]
+        if prev:
+            near["last-started"] = prev[-1]
+            near["first-started"] = prev[0]
+        for how, nn in near.items():
+            if nn and nn != nm:
+                out.append(("rename-end-" + how, j(toks[:i] + ["</" + nn + ">"] + toks[i + 1:])))
         out.append(("dup-end", j(toks[:i] + [toks[i], toks[i]] + toks[i + 1:])))
         out.append(("text-after-end", j(toks[:i + 1] + ["junk"] + toks[i + 1:])))
         others = [k for k in ends if toks[k] != toks[i]]
